@@ -47,7 +47,7 @@ type c17Case struct {
 var c17DirNames = []string{"x/API", "models-v2", "models/sub", "models.old", "foo", "foobar", "foo/bar", "ab1", "ab2", "a", "ab", "x/y", "x/yz", "models", "models2", "pkg/api", "pkg/apiserver"}
 
 var c17Pairs = [][]string{{"foo", "foobar"}, {"ab1", "ab2"}, {"a", "ab"}, {"x/y", "x/yz"}, {"pkg/api", "pkg/apiserver"}, {"models", "models2"}, {"foo", "foo/bar"}, {"foo/bar", "foobar"},
-	{"x/API", "x/api"}, {"Models", "models"}, {"models", "models/sub", "models-v2"}, {"models", "models/sub", "models.old"}} // directories that differ only by case are different directories
+	{"x/API", "x/api"}, {"Models", "models"}, {"models", "models/sub", "models-v2"}, {"models", "models/sub", "models.old"}, {"foo/bar", "foo"}, {"models/sub", "models"}, {"x/y/deep", "x"}} // directories that differ only by case are different directories
 
 func c17Gen(t *rapid.T, r *h.Rec) c17Case {
 	var c c17Case
@@ -90,6 +90,12 @@ func c17Gen(t *rapid.T, r *h.Rec) c17Case {
 	for i := 0; i < nIn; i++ {
 		di := rapid.IntRange(0, len(c.Dirs)-1).Draw(t, "inDir")
 		c.Inputs = append(c.Inputs, c17Input{Dir: di, File: rapid.IntRange(0, len(c.Dirs[di].Files)-1).Draw(t, "inFile"), Abs: rapid.Bool().Draw(t, "abs"), Kind: "ok"})
+	}
+	// the first file decides where the search for the common root starts: also give the deepest directory first
+	if len(c.Inputs) > 1 && rapid.IntRange(0, 2).Draw(t, "reverseInputs") == 0 {
+		for i, j := 0, len(c.Inputs)-1; i < j; i, j = i+1, j-1 {
+			c.Inputs[i], c.Inputs[j] = c.Inputs[j], c.Inputs[i]
+		}
 	}
 	if rapid.Bool().Draw(t, "insideModule") {
 		c.CwdDir = 1 + rapid.IntRange(0, len(c.Dirs)-1).Draw(t, "cwdDir")
